@@ -1465,7 +1465,8 @@ def run_objects(case, res):
     version = []                      # per model: number of operations addressed to it or to its parameters object so far
     evals = []                        # per eval op: (mid, records, rows or error)
     addressed_ops = []                # per model: the operations addressed to it / its object (for the fresh replay)
-    nset_other = 0
+    impl_models = []                  # per model: position (allocation order) of the object it really holds
+    pid_ops = []                      # per parameters object: the setter calls made on it so far
 
     def holders(pid):
         return [i for i, q in enumerate(ref_models) if q == pid]
@@ -1487,8 +1488,9 @@ def run_objects(case, res):
                     pass          # the user's own shared object
                 else:
                     top = path.split('.')[0]
-                    res.violate('isolation:HomogenizationModel:state-of-%s-parameters-model-changed-by-%s-on-another-model:%s' % (
-                                    kind_of(i), op[0] if op[0] != 'other' else op[2], top),
+                    res.violate('isolation:HomogenizationModel:state-of-%s-parameters-model-changed-by-%s-of-another-model:%s' % (
+                                    kind_of(i), {'model': 'building', 'set': 'setter-call', 'setP': 'parameters-object-setter-call', 'eval': 'evaluation',
+                                                 'params': 'new-parameters-object'}.get(op[0], op[0]) if op[0] != 'other' else op[2] + '-call', top),
                                 'operation %d (%s) was not addressed to model %d, but %s of model %d changed' % (k, op[:3], i, path, i),
                                 dict(desc, failing_op=k, model=i), path, 'unchanged')
             snaps[i] = new
@@ -1524,6 +1526,7 @@ def run_objects(case, res):
             hp = HomogenizationParameters(c['rule'], labyrinthFactor=c['n'], eps=op[2], postProcessFunction=c['post'][0],
                                           postProcessArgs=(list(c['post'][1]) if isinstance(c['post'][1], list) else c['post'][1]))
             objs.append(hp)
+            pid_ops.append([])
             ref_objs.append(dict(rule=c['rule'], n=c['n'], post=(c['post'][0], c['post'][1]), eps=op[2], kind='explicit', touched=False))
             res.count('objects:op:new-parameters')
         elif tag == 'model':
@@ -1539,14 +1542,18 @@ def run_objects(case, res):
                     objs.append(hp)
                 else:
                     objs.append(None)      # the model did not get an object of its own (reported by identity_check)
+                pid_ops.append([])
+                impl_models.append(idx if idx is not None else len(objs) - 1)
                 how_built.append('default')
+                addressed_ops.append([])
             else:
                 if ref_objs[arg]['kind'] == 'default' or holders(arg):
                     ref_objs[arg]['touched'] = True
                 ref_models.append(arg)
+                impl_models.append(idx if idx is not None else -1)
                 how_built.append('explicit')
-            case.setdefault('_impl_models', []).append(idx if idx is not None else len(objs) - 1)
-            version.append(0); addressed_ops.append([])
+                addressed_ops.append(list(pid_ops[arg]))
+            version.append(0)
             touched = {len(models) - 1}
             res.count('objects:op:new-model:' + ('default' if arg is None else ('shared' if len(holders(arg)) > 1 else 'own-explicit')))
             identity_check(k)
@@ -1571,6 +1578,7 @@ def run_objects(case, res):
                 res.violate('raises:HomogenizationModel-setter:%s:%s' % (op[2][0], got), 'a setter raised %s: %s' % (got, got.msg),
                             dict(desc, failing_op=k, raised_at=got.site), str(got), 'setting stored')
             apply_setting_ref(ref_objs[pid], op[2])
+            pid_ops[pid].append(op)
             touched = set(holders(pid)); touched_pid = pid
             for i in touched:
                 version[i] += 1; addressed_ops[i].append(op)
@@ -1626,11 +1634,14 @@ def run_objects(case, res):
             # ---- per-evaluation clauses on every model of the history: bounds, sum f*M for upper Wiener
             if not isinstance(rows, str) and rows is not None:
                 for i, ((st, mob, fr), out) in enumerate(zip(recs, rows)):
-                    if all(v is not None for rw in mob for v in rw) and own['post'][0] != 'exclude' and own['rule'] != 4:
+                    if all(v is not None for rw in mob for v in rw) and own['post'][0] != 'exclude' and own['rule'] != 4 and not isinstance(wants[i], str):
                         for j, v in enumerate(out):
                             col = [rw[j] for rw in mob]
                             lo, hi = min(col), max(col)
-                            if not (le_tol(lo, v, hi, 1e-9) and le_tol(v, hi, hi, 1e-9)):
+                            w = wants[i][j]
+                            if w is None or w[1] > 1e-3:
+                                res.near_tie_skipped += 1; continue
+                            if not (le_tol(lo, v, hi if own['rule'] == 2 else 0.0, w[1]) and le_tol(v, hi, 0.0, w[1])):
                                 res.violate('bounds:model-history:%s-outside-min-max-of-phase-mobilities' % RULES[own['rule']].replace(' ', '-'),
                                             'node %d of model %d: homogenized mobility outside [min, max] of the stable phases' % (i, mid), edesc, v, [lo, hi])
                         res.count('objects:bounds-checked')
@@ -1641,7 +1652,8 @@ def run_objects(case, res):
                 if not same_answer(prev[1], ans):
                     res.violate('twice-differs-from-once:model-history:%s-parameters:%s' % (kind_of(mid), path),
                                 'model %d, asked again with no operation addressed to it or to its parameters object in between, gives another answer' % mid,
-                                edesc, None if isinstance(ans, str) else ans['rows'][:2], None if isinstance(prev[1], str) else prev[1]['rows'][:2])
+                                edesc, None if isinstance(ans, str) or ans['rows'] is None else ans['rows'][:2],
+                                None if isinstance(prev[1], str) or prev[1]['rows'] is None else prev[1]['rows'][:2])
             # ---- determinism: immediately again
             ans2 = model_eval(m, how)
             if not same_answer(ans, ans2):
@@ -1649,13 +1661,16 @@ def run_objects(case, res):
             last[(mid, how)] = (version[mid], ans)
         frame_check(k, op, touched, touched_pid)
     # ---- a fresh model given exactly the operations addressed to A answers as A
+    model_ops = [o for o in ops if o[0] == 'model']
+    param_ops = [o for o in ops if o[0] == 'params']
+    expl = [i for i, o in enumerate(ref_objs) if o['kind'] == 'explicit']
     for mid, m in enumerate(models):
         pid = ref_models[mid]
-        built = next(o for o in ops if o[0] == 'model' and ops.index(o) >= 0 and o is [oo for oo in ops if oo[0] == 'model'][mid])
+        built = model_ops[mid]
         if ref_objs[pid]['kind'] == 'default':
             f = build_model(AnalyticTherm(spec), spec, built, None)
         else:
-            pop = [oo for oo in ops if oo[0] == 'params'][[i for i, o in enumerate(ref_objs) if o['kind'] == 'explicit'].index(pid)]
+            pop = param_ops[expl.index(pid)]
             c = pop[1]
             hp = HomogenizationParameters(c['rule'], labyrinthFactor=c['n'], eps=pop[2], postProcessFunction=c['post'][0],
                                           postProcessArgs=(list(c['post'][1]) if isinstance(c['post'][1], list) else c['post'][1]))
@@ -1675,7 +1690,7 @@ def run_objects(case, res):
                 res.violate('isolation:HomogenizationModel:%s-parameters:%s:differs-from-fresh-model-given-the-same-calls' % (
                                 kind_of(mid), 'getFluxes' if how == 'fluxes' else 'computeHomogenizationFunction'),
                             'model %d at the end of the history does not answer as a fresh model given exactly the %d operations addressed to it' % (mid, len(addressed_ops[mid])),
-                            dict(desc, model=mid), None if isinstance(a, str) else a['rows'][:2], None if isinstance(b, str) else b['rows'][:2])
+                            dict(desc, model=mid), str(a) if isinstance(a, str) else (a['rows'] or [])[:2], str(b) if isinstance(b, str) else (b['rows'] or [])[:2])
     # ---- the store at the end, as the implementation holds it
     store = []
     for hp in objs:
@@ -1683,7 +1698,7 @@ def run_objects(case, res):
             store.append(None); continue
         store.append(dict(rule=RULE_FUNCS.get(getattr(hp.homogenizationFunction, '__name__', ''), -1), n=float(hp.labyrinthFactor), eps=float(hp.eps),
                           post=(POST_FUNCS.get(getattr(hp.postProcessFunction, '__name__', ''), '?'), hp.postProcessParameters[0])))
-    return dict(evals=evals, store=store, models=list(case.get('_impl_models', [])))
+    return dict(evals=evals, store=store, models=impl_models)
 
 
 def enc_setting(s, ids):
@@ -1776,7 +1791,7 @@ def diffusion_classes():
             continue
         mod = importlib.import_module('kawin.diffusion.' + mi.name)
         for name, cls in inspect.getmembers(mod, inspect.isclass):
-            if cls.__module__ == mod.__name__ and '__init__' in vars(cls):
+            if cls.__module__ == mod.__name__:
                 out.append(cls)
     return out
 
@@ -1798,10 +1813,16 @@ def check_constructor_defaults(res):
             with np.errstate(all='ignore'), warnings.catch_warnings():
                 warnings.simplefilter('ignore')
                 return cls(**{nm: _REQUIRED_ARGS[nm]() for nm in need})
-        ok, pair = vlib.guarded(res, 'constructor-with-defaults:%s' % cls.__name__, desc, lambda: (make(), make()))
-        if not ok:
+        try:
+            pair = (make(), make())
+        except Exception as e:      # noqa
+            if vlib.in_repo_traceback(traceback.format_exc()):
+                vlib.guarded(res, 'constructor-with-defaults:%s' % cls.__name__, desc, make)      # recorded as raised by the implementation
+            else:
+                res.count('defaults:skipped:%s' % cls.__name__)       # not constructible from the known argument table (e.g. a record type)
             continue
         a, b = pair
+        seen = set()
         res.count('defaults:class-checked'); res.count('defaults:parameters-walked', len(walked))
         res.case(('defaults', cls.__name__), bool(walked))
         for p in pars:
@@ -1809,16 +1830,19 @@ def check_constructor_defaults(res):
                 # a mutable object in the signature itself: it must not be what the instance holds
                 held = [k for k, v in vars(a).items() if v is p.default]
                 if held:
+                    seen.add(held[0])
                     res.violate('constructor-default-shared:%s.%s' % (cls.__name__, held[0]),
                                 "the default of parameter '%s' of %s is one %s object made when the module is imported and every instance holds it" % (
                                     p.name, cls.__name__, type(p.default).__name__), desc, 'held by the instance', 'a new object per instance')
         for path in shared_mutables(a, b):
+            if path.split('[')[0] in seen:
+                continue
             res.violate('constructor-default-shared:%s.%s' % (cls.__name__, path.split('[')[0]),
                         'two %s objects built with default arguments reach the same mutable object at %s' % (cls.__name__, path), desc, path, 'distinct objects')
 
 
 # ------------------------------------------------------------------ entry points
-def corr(ctx, n_hist=None, n_rules=None, oracle_only=False, n_pur=None):
+def corr(ctx, n_hist=None, n_rules=None, oracle_only=False, n_pur=None, n_obj=None):
     vlib.use_repo()
     res = Result()
     res.rule = ('(a) history cases: random database phase list (1-5 names, shuffled), 1-4 stable phases in their own order (6% duplicate name), '
@@ -1829,13 +1853,20 @@ def corr(ctx, n_hist=None, n_rules=None, oracle_only=False, n_pur=None):
                 'or NICRAL_TDB, pool of points = 1-3 base compositions x temperature offsets {0, .25, .3, .5, .8, 1, 1.3, 5 K, 0.3/0.9/1.1/3/12 x 10^-s} + composition offsets '
                 '{0.4, 1.2, 3, 30 x 10^-s, 0.01}, precision s in 0..8, 3-9 calls (scalar / array / gradient along T at one x / profile along x at one T, 40% repeats of an '
                 'earlier call, half of them under another rule or post-processing) with 20% control events (precision change, clear, enable on/off) in between. '
-                'non-trivial = at least 2 stable phases (a-c), at least 2 points and 2 calls (d); distinct = full input tuple')
+                '(e) object histories: 2-3 HomogenizationModel objects on one analytic thermodynamics (3-5 nodes, linear profiles), each built without parameters (60%), with its own '
+                'HomogenizationParameters (20%) or with an object another model holds (20%), 8-14 operations: setter calls on a model (rule by string/int, labyrinth factor, '
+                'post-processing, eps), setters on a parameters object itself, other calls on a model (boundary condition, temperature, constraints, table precision / clear / on-off), '
+                'evaluations (mobilities captured inside _getFluxes + fluxes, or the public function on the model\'s own attributes), every model evaluated at the end; '
+                '(f) every class of kawin.diffusion built twice with default arguments. '
+                'non-trivial = at least 2 stable phases (a-c), at least 2 points and 2 calls (d), at least 2 models and a setter call between two evaluations (e); distinct = full input tuple')
     N1 = n_hist or ctx.n(6000, 80000)
     N2 = n_rules or ctx.n(10000, 150000)
     N3 = n_pur or ctx.n(300, 5000)
     hist = [gen_history_case(ctx.rng) for _ in range(N1)]
     rules = [gen_rules_case(ctx.rng) for _ in range(N2)]
     pur = [gen_purity_case(ctx.rng) for _ in range(N3)]
+    N4 = n_obj or ctx.n(120, 2500)
+    objs_cases = [gen_objects_case(ctx.rng) for _ in range(N4)]
     for spec in shipped_purity_specs(ctx):
         pur += [gen_purity_case(ctx.rng, spec, small=True) for _ in range(ctx.n(3, 25))]
     use_model = ctx.driver_ok and not oracle_only
@@ -1852,6 +1883,19 @@ def corr(ctx, n_hist=None, n_rules=None, oracle_only=False, n_pur=None):
             c['_records'] = recs
             pur_ok.append(c)
     lines += [purity_line(c) for c in pur_ok]
+    off_obj = len(lines)
+    obj_ok = []
+    for k, c in enumerate(objs_cases):
+        ok, run = vlib.guarded(res, 'object-history', c, run_objects, c, res)
+        nm = sum(1 for o in c['ops'] if o[0] == 'model')
+        res.case(('objects', repr(c['therm']), repr(c['ops'])), nm >= 2 and any(o[0] in ('set', 'setP') for o in c['ops']))
+        res.count('objects:models:%d' % nm)
+        if ok:
+            obj_ok.append((c, run))
+        if k < 1:
+            res.sample(c)
+    lines += [objects_line(c, run) for c, run in obj_ok]
+    vlib.guarded(res, 'constructor-defaults', dict(kind='defaults'), check_constructor_defaults, res)
     model = vlib.run_driver(PROP, lines) if use_model else None
     for k, c in enumerate(hist):
         vlib.guarded(res, 'history-case', c, check_history, c, res, model[k] if model else None)
@@ -1883,13 +1927,16 @@ def corr(ctx, n_hist=None, n_rules=None, oracle_only=False, n_pur=None):
         if k < 1:
             res.sample({kk: vv for kk, vv in c.items() if not kk.startswith('_')})
     res.traces += sum(1 for c in pur_ok if c['therm']['kind'] == 'shipped')
+    if model:
+        for k, (c, run) in enumerate(obj_ok):
+            vlib.guarded(res, 'object-history-correspondence', c, corr_objects, c, run, res, model[off_obj + k])
     vlib.finish_guard(res)
     return res
 
 
 def search(ctx, broken):
     """something no longer checks: look for a failing input with the oracle alone on a larger sample"""
-    return corr(ctx, n_hist=ctx.n(8000, 100000), n_rules=ctx.n(15000, 200000), oracle_only=True, n_pur=ctx.n(800, 8000))
+    return corr(ctx, n_hist=ctx.n(8000, 100000), n_rules=ctx.n(15000, 200000), oracle_only=True, n_pur=ctx.n(800, 8000), n_obj=ctx.n(300, 4000))
 
 
 def replay(ctx, entry):
@@ -1898,7 +1945,7 @@ def replay(ctx, entry):
     if 'case' in c and isinstance(c['case'], dict) and 'kind' in c['case']:
         c = c['case']            # a case recorded by vlib.guarded (the implementation raised)
     c = {k: v for k, v in c.items() if k not in ('failing_cfg', 'order', 'raised_at', 'failing_call', 'precision', 'caching',
-                                                 'failing_point', 'position_in_call', 'served_from')}
+                                                 'failing_point', 'position_in_call', 'served_from', 'failing_op', 'model', 'models', 'settings_of_model')}
     res = Result()
 
     def shipped(c, with_cfgs):
@@ -1927,6 +1974,10 @@ def replay(ctx, entry):
         vlib.guarded(res, 'shipped-history-case', {k: v for k, v in c.items()}, shipped, c, True)
     elif kind in ('shipped-point', 'shipped-load'):
         vlib.guarded(res, 'computeMobility', c, shipped, c, False)
+    elif kind == 'objects':
+        vlib.guarded(res, 'object-history', c, run_objects, c, res)
+    elif kind == 'defaults':
+        vlib.guarded(res, 'constructor-defaults', c, check_constructor_defaults, res)
     else:
         print('   unknown case kind'); return None
     vlib.finish_guard(res)
